@@ -9,7 +9,7 @@ CLAIMED = {
     'C01': (M + ' + ' + K, 'one next_json_value call from an arbitrary reader state on n free bytes (all 256 values each) against a symbolic RFC 8259 reference: value/denotation, bytes consumed, look-ahead, garbage resynchronisation; string tokens and number tokens by class with every byte free; read loop: one context per value; From<f64> normalisation over every finite double (Kani); concrete translator self-check against the real binary'),
     'C02': (M + ' + ' + K, 'print_string on 1..2 free code points x utf8_strings against a symbolic RFC 8259 string reader; value shapes x free style against the exact text; numbers handed to Display unchanged; one write per row with the separator; arithmetic never yields a non-finite number (Kani)'),
     'C03': (M, 'the chain built by go() for every option subset (vectors <= 2) against the documented order, capacity placement, complete() after the last read; each stage one step against its list-transformer contract, Break and Err forwarding with free successor answers; start/complete forwarding; limiter, sorter, collectors, unique, contexts, titles, --set collection'),
-    'C04': (M + ' + ' + K, 'function kernels (executed from their MIR with jawk's own conversions inlined, references written from the documentation) take/take_last/sub/pop/pop_first/first/last/push/push_front/reverese/head/tail/size/get/range/put/keys/values/default, fold (every answer pattern of the function argument) on arrays and objects of 0..3 opaque elements and on every well-formed UTF-8 string of 0..3 bytes, counts any u64; contexts, pipe, :var/@macro, every function name and alias read back whole; arithmetic kernels on all finite doubles (Kani; table-driven kernels over every combination of argument shapes incl. ill-typed and absent ones: and or xor not if, the seven type tests, the five casts, all any concat join indexed entries insert_if_absent replace_if_exists; functions with a function argument (filter_keys filter_values map_keys map_values flat_map group_by map filter) over every script of answers, with the evaluation contexts; number-as-string functions against exact rational arithmetic'),
+    'C04': (M + ' + ' + K, 'function kernels (executed from their MIR with the conversions of jawk inlined, references written from the documentation) take/take_last/sub/pop/pop_first/first/last/push/push_front/reverese/head/tail/size/get/range/put/keys/values/default, fold (every answer pattern of the function argument) on arrays and objects of 0..3 opaque elements and on every well-formed UTF-8 string of 0..3 bytes, counts any u64; contexts, pipe, :var/@macro, every function name and alias read back whole; arithmetic kernels on all finite doubles (Kani); table-driven kernels over every combination of argument shapes incl. ill-typed and absent ones: and or xor not if, the seven type tests, the five casts, all any concat join indexed entries insert_if_absent replace_if_exists; functions with a function argument (filter_keys filter_values map_keys map_values flat_map group_by map filter) over every script of answers, with the evaluation contexts; number-as-string functions against exact rational arithmetic'),
     'C05': (M + ' + ' + K, 'panic paths and progress of the tokenizer on n free bytes and on string tokens by class; panic paths of all function kernels of C04 incl. the table-driven ones (slicing, overflow, unwrap, indexing); expression reader on every text of <= 3 bytes; expression-name truncation; read loop; arithmetic on integer pairs over the full 64-bit ranges (Kani)'),
     'C06': (M, 'read_input over every parser outcome x 4 policies x every successor/write outcome; a garbage byte costs exactly one byte and one recoverable error from any reader state; counters and locations handed to the context'),
     'C07': (M + ' + ' + K, 'SortProcess over k rows with free key ranks (ties, absent keys, both directions, with and without capacity); chain order of repeated --sort-by; JsonValue::cmp arm by arm over the 36 type pairs; sort functions delegate to stable sorts; order axioms of NumberValue/JsonValue scalars over full payload ranges (Kani)'),
